@@ -293,6 +293,7 @@ def Incoming.raiseInLoop (h : Incoming) (c : PyExn) : OM Unit := fun w =>
     match cl.2 w with
     | (.ok (), w') => (.ok (), { w' with o := { w'.o with task := some (.finished .ok) } })
     | (.error (.exn (.foreign c')), w') => (.ok (), { w' with o := { w'.o with task := some (.finished (.raised c')) } })
+    -- a library error out of the handler (a subclass of `Exception`; `TaskState` records Python classes only)
     | (.error _, w') => (.ok (), { w' with o := { w'.o with task := some (.finished (.raised .Exception)) } })
   | none => (.ok (), { w with o := { w.o with task := some (.finished (.raised c)) } })
 
@@ -336,6 +337,11 @@ def Call.published : Call → Option (Str × Str × Int)
       (match kw.lookup "payload" with | some (.str p) => p | _ => []),
       (match kw.lookup "qos" with | some (.int q) => q | _ => 0))
   | _ => none
+
+/-- Is it a `publish` call asking the broker to retain the message (`retain=True`; aiomqtt's default is `False`)? -/
+def Call.retained : Call → Bool
+  | .publish _ kw => (match kw.lookup "retain" with | some (.bool b) => b | _ => false)
+  | _ => false
 
 /-- `(topic, qos)` of a `subscribe` call. -/
 def Call.subscribed : Call → Option (Str × Int)
